@@ -115,57 +115,96 @@ func c16TokenRules(e *c16Env) {
 			continue
 		}
 		fn := FnName(f)
-		rtEmpty, rtNonEmpty := e.emptyTests(f, "RefreshToken")
-		forceLoads := map[ssa.Value]bool{}
-		for _, ld := range c14FieldLoads(f, "~/registry/remote/auth.Client", "ForceAttemptOAuth2") {
-			forceLoads[ld] = true
-		}
-		forceT, forceF := BoolTests(f, forceLoads)
-		// cred == EmptyCredential
-		var isEmptyE, notEmptyE []Edge
-		for _, i := range Ifs(f) {
-			cond, t, fe := ifEdges(i)
-			bo, ok := cond.(*ssa.BinOp)
-			if !ok || (bo.Op != token.EQL && bo.Op != token.NEQ) {
-				continue
-			}
-			isG := func(v ssa.Value) bool {
-				u, ok := v.(*ssa.UnOp)
-				if !ok {
-					return false
+		// facts established by the branches taken on a path (conditions resolved per path, so that
+		// `a && b` materialised as a phi and switch case lists are seen through)
+		factsOf := func(path c16Path) map[string]bool {
+			facts := map[string]bool{}
+			for i := 0; i+1 < len(path); i++ {
+				b := path[i]
+				ifi, isIf := b.Instrs[len(b.Instrs)-1].(*ssa.If)
+				if !isIf {
+					continue
 				}
-				g, ok := u.X.(*ssa.Global)
-				return ok && g.Name() == "EmptyCredential"
+				taken := path[i+1] == b.Succs[0]
+				cond := ifi.Cond
+				for k := 0; k < 6; k++ {
+					r, _ := c16ResolveOnPath(cond, path, i, len(b.Instrs), 0)
+					if u, isNot := r.(*ssa.UnOp); isNot && u.Op == token.NOT {
+						cond, taken = u.X, !taken
+						continue
+					}
+					cond = r
+					break
+				}
+				switch x := cond.(type) {
+				case *ssa.BinOp:
+					if x.Op != token.EQL && x.Op != token.NEQ {
+						continue
+					}
+					eq := (x.Op == token.EQL) == taken
+					isG := func(v ssa.Value) bool {
+						u, ok := v.(*ssa.UnOp)
+						if !ok {
+							return false
+						}
+						g, ok := u.X.(*ssa.Global)
+						return ok && g.Name() == "EmptyCredential"
+					}
+					if isG(x.X) || isG(x.Y) {
+						facts["cred:"+ifelse(eq, "empty", "nonempty")] = true
+						continue
+					}
+					l, r := x.X, x.Y
+					if s, isS := constString(r); !isS || s != "" {
+						l, r = r, l
+					}
+					if s, isS := constString(r); isS && s == "" {
+						for fld := range e.credFieldsOf(l) {
+							if len(e.credFieldsOf(l)) == 1 {
+								facts[fld+":"+ifelse(eq, "empty", "nonempty")] = true
+							}
+						}
+					}
+				case *ssa.UnOp:
+					if fa, ok := x.X.(*ssa.FieldAddr); ok && x.Op == token.MUL && fieldName(fa.X.Type(), fa.Field) == "~/registry/remote/auth.Client.ForceAttemptOAuth2" {
+						facts["force:"+ifelse(taken, "true", "false")] = true
+					}
+				}
 			}
-			if !isG(bo.X) && !isG(bo.Y) {
-				continue
+			return facts
+		}
+		okO, okD := true, true
+		decided := true
+		for _, call := range oc {
+			paths, ok := c16FeasiblePaths(call.(ssa.Instruction), 4000)
+			if !ok {
+				decided = false
 			}
-			if bo.Op == token.EQL {
-				isEmptyE, notEmptyE = append(isEmptyE, t), append(notEmptyE, fe)
-			} else {
-				isEmptyE, notEmptyE = append(isEmptyE, fe), append(notEmptyE, t)
+			for _, p := range paths {
+				fs := factsOf(p)
+				if !(fs["RefreshToken:nonempty"] || fs["force:true"]) || !(fs["cred:nonempty"] || fs["RefreshToken:nonempty"] || fs["Username:nonempty"] || fs["Password:nonempty"]) {
+					okO = false
+				}
 			}
 		}
-		okO := len(rtNonEmpty)+len(forceT) > 0
-		for _, call := range oc {
-			if !MustPass(call.(ssa.Instruction), newCut().Edges(rtNonEmpty...).Edges(forceT...)) {
-				okO = false
+		for _, call := range dc {
+			paths, ok := c16FeasiblePaths(call.(ssa.Instruction), 4000)
+			if !ok {
+				decided = false
 			}
-			// … and only for a credential known not to be the empty one
-			_, unNE := e.emptyTests(f, "Username")
-			_, pwNE := e.emptyTests(f, "Password")
-			if !MustPass(call.(ssa.Instruction), newCut().Edges(notEmptyE...).Edges(rtNonEmpty...).Edges(unNE...).Edges(pwNE...)) {
-				okO = false
+			for _, p := range paths {
+				fs := factsOf(p)
+				if !(fs["cred:empty"] || (fs["RefreshToken:empty"] && fs["force:false"])) {
+					okD = false
+				}
 			}
+		}
+		if !decided {
+			c.Undecided(R, fn+"|grant-selection", f.Pos(), "too many paths to decide the grant selection")
+			continue
 		}
 		c.Check(R, fn+"|oauth2-only-with-refresh-token-or-forced", oc[0].Pos(), okO,
 			ifelse(okO, "the OAuth2 flow is reached only with a refresh token or ForceAttemptOAuth2, and never for the empty credential", "the OAuth2 token flow can be chosen without a refresh token and without ForceAttemptOAuth2 (or for the empty credential): registries that only implement the distribution token endpoint answer with an error although the credentials are valid"))
-		okD := true
-		for _, call := range dc {
-			if !MustPass(call.(ssa.Instruction), newCut().Edges(isEmptyE...).Edges(rtEmpty...)) || !MustPass(call.(ssa.Instruction), newCut().Edges(isEmptyE...).Edges(forceF...)) {
-				okD = false
-			}
-		}
 		c.Check(R, fn+"|distribution-only-without-refresh-token-and-unforced", dc[0].Pos(), okD,
 			ifelse(okD, "the distribution flow is reached only for the empty credential, or without a refresh token and with ForceAttemptOAuth2 unset", "the distribution token flow can be chosen although a refresh token is configured (it is never sent: the identity-token login fails with 401) or although OAuth2 is forced"))
 	}
